@@ -30,6 +30,10 @@ type Router struct {
 
 	IQResultRoutes    map[string]*IQResultRoute
 	IQResultRouteLock sync.RWMutex
+	// Pending requests whose id was registered again before they were answered (ids are the
+	// application's: two of them can clash). They wait here, oldest first, and take the place in
+	// IQResultRoutes again when the request in front of them is answered or given up.
+	shadowedIQResultRoutes map[string][]*IQResultRoute
 }
 
 // NewRouter returns a new router instance.
@@ -62,7 +66,7 @@ func (r *Router) route(s Sender, p stanza.Packet) {
 		r.IQResultRouteLock.Lock()
 		route, ok := r.IQResultRoutes[iq.Id]
 		if ok {
-			delete(r.IQResultRoutes, iq.Id)
+			r.dropIQResultRoute(iq.Id, route)
 		}
 		r.IQResultRouteLock.Unlock()
 		if ok {
@@ -150,6 +154,13 @@ func (r *Router) NewRoute() *Route {
 func (r *Router) NewIQResultRoute(ctx context.Context, id string) chan stanza.IQ {
 	route := NewIQResultRoute(ctx)
 	r.IQResultRouteLock.Lock()
+	if pending, ok := r.IQResultRoutes[id]; ok {
+		// Another request with this id is still waiting for its response: it is not forgotten.
+		if r.shadowedIQResultRoutes == nil {
+			r.shadowedIQResultRoutes = make(map[string][]*IQResultRoute)
+		}
+		r.shadowedIQResultRoutes[id] = append(r.shadowedIQResultRoutes[id], pending)
+	}
 	r.IQResultRoutes[id] = route
 	r.IQResultRouteLock.Unlock()
 
@@ -159,20 +170,54 @@ func (r *Router) NewIQResultRoute(ctx context.Context, id string) chan stanza.IQ
 	go func() {
 		<-route.context.Done()
 		r.IQResultRouteLock.Lock()
-		if r.IQResultRoutes[id] == route {
-			delete(r.IQResultRoutes, id)
-		}
+		r.dropIQResultRoute(id, route)
 		r.IQResultRouteLock.Unlock()
 	}()
 
 	return route.result
 }
 
-// removeIQResultRoute unregisters a pending IQ result route, if it is still there.
-func (r *Router) removeIQResultRoute(id string) {
+// removeIQResultRoute unregisters the pending request that delivers on the given channel, if it is
+// still there. Other requests that use the same id are not touched.
+func (r *Router) removeIQResultRoute(id string, result chan stanza.IQ) {
 	r.IQResultRouteLock.Lock()
-	delete(r.IQResultRoutes, id)
+	if route, ok := r.IQResultRoutes[id]; ok && route.result == result {
+		r.dropIQResultRoute(id, route)
+	} else {
+		for _, route := range r.shadowedIQResultRoutes[id] {
+			if route.result == result {
+				r.dropIQResultRoute(id, route)
+				break
+			}
+		}
+	}
 	r.IQResultRouteLock.Unlock()
+}
+
+// dropIQResultRoute takes one pending request out of the tables. If it was the one responses are
+// delivered to, the most recent of the requests that wait behind it under the same id takes its
+// place. IQResultRouteLock must be held.
+func (r *Router) dropIQResultRoute(id string, route *IQResultRoute) {
+	waiting := r.shadowedIQResultRoutes[id]
+	if r.IQResultRoutes[id] == route {
+		delete(r.IQResultRoutes, id)
+		if n := len(waiting); n > 0 {
+			r.IQResultRoutes[id] = waiting[n-1]
+			waiting = waiting[:n-1]
+		}
+	} else {
+		for i, w := range waiting {
+			if w == route {
+				waiting = append(waiting[:i:i], waiting[i+1:]...)
+				break
+			}
+		}
+	}
+	if len(waiting) == 0 {
+		delete(r.shadowedIQResultRoutes, id)
+	} else {
+		r.shadowedIQResultRoutes[id] = waiting
+	}
 }
 
 func (r *Router) Match(p stanza.Packet, match *RouteMatch) bool {
